@@ -260,6 +260,22 @@ def pairs_fastcc(model, sub_ids, threshold, flip):
     return out
 
 
+def pairs_loopless(model):
+    """add_loopless: the null-space basis is numpy's (floats, taken as data — recomputed here with cobrapy's own helper on the same matrix)."""
+    import numpy as np
+    from cobra.flux_analysis.loopless import add_loopless
+    from cobra.util.array import create_stoichiometric_matrix, nullspace
+    net = net_json(model)
+    internal = [i for i, r in enumerate(model.reactions) if not r.boundary]
+    s_int = create_stoichiometric_matrix(model)[:, np.array(internal)]
+    ns = nullspace(s_int).T
+    with model:
+        add_loopless(model)
+        with capture() as got:
+            model.slim_optimize()
+    return [({"net": net, "build": "loopless", "ns": [[canon.num(float(c)) for c in row] for row in ns], "cutoff": canon.num(model.tolerance)}, got[-1])]
+
+
 def pairs_deletions(model, rids, method):
     """single_reaction_deletion, serial: one solve per requested reaction, on the content with that reaction closed."""
     from cobra.flux_analysis import single_reaction_deletion
